@@ -14,11 +14,13 @@ import (
 	"net/netip"
 	"os"
 	"path/filepath"
+	"sync"
 	"testing"
 	"time"
 
 	"go.minekube.com/gate/pkg/verifexport"
 
+	"verif/harness/sched"
 	"verif/harness/tracefmt"
 )
 
@@ -51,6 +53,8 @@ type stats struct {
 	LimiterRuns  int   `json:"limiter_runs"`
 	Accts        int   `json:"accounts"`
 	Closed       int   `json:"limiter_runs_closed"`
+	SubMsRuns    int   `json:"sub_millisecond_runs"`
+	QuotaScheds  int   `json:"quota_schedules_forced"`
 	QuotaCalls   int   `json:"quota_calls"`
 	QuotaBlocked int   `json:"quota_blocked"`
 	Keys         int   `json:"key_pairs"`
@@ -97,17 +101,19 @@ func TestTrace(t *testing.T) {
 		t.Fatal(err)
 	}
 
-	// ms is the length of one model tick in milliseconds; rep repeats every event
-	runCounter := func(h history, ms int, rep int, base int64) {
-		w := h.W * ms
-		tw.Emit(tracefmt.Rec{"ev": "reset", "kind": "counter", "w": w})
-		c := verifexport.NewPacketCounter(time.Duration(w) * time.Millisecond)
+	// A run's trace unit is the millisecond (ups = 1000) or the microsecond (ups = 1000000);
+	// tick is the length of one history step in units; rep repeats every event.
+	unitNs := func(ups int) int64 { return 1_000_000_000 / int64(ups) }
+	runCounter := func(h history, ups, tick int, rep int, base int64) {
+		w := h.W * tick
+		tw.Emit(tracefmt.Rec{"ev": "reset", "kind": "counter", "w": w, "ups": ups})
+		c := verifexport.NewPacketCounter(time.Duration(int64(w) * unitNs(ups)))
 		cap0 := c.Cap()
 		for _, e := range h.Ev {
 			for k := 0; k < rep; k++ {
-				tms := e.T * ms
-				c.UpdateAndAdd(int64(e.N), base+int64(tms)*1_000_000) // wraps for the base near MaxInt64
-				tw.Emit(tracefmt.Rec{"ev": "add", "t": tms, "n": e.N, "sum": c.Sum(), "cap": c.Cap()})
+				tu := e.T * tick
+				c.UpdateAndAdd(int64(e.N), base+int64(tu)*unitNs(ups)) // wraps for the base near MaxInt64
+				tw.Emit(tracefmt.Rec{"ev": "add", "t": tu, "n": e.N, "sum": c.Sum(), "cap": c.Cap()})
 				st.Adds++
 			}
 		}
@@ -118,26 +124,29 @@ func TestTrace(t *testing.T) {
 			st.Resizes++
 		}
 		st.CounterRuns++
+		if ups > 1000 {
+			st.SubMsRuns++
+		}
 	}
 	var clock int64
 	verifexport.SetPacketLimiterClock(func() int64 { return clock })
 	defer verifexport.SetPacketLimiterClock(nil)
-	runLimiter := func(h history, ms, pps, bps, bytesPer int, rep int, base int64) {
-		w := h.W * ms
-		tw.Emit(tracefmt.Rec{"ev": "reset", "kind": "limiter", "w": w, "pps": pps, "bps": bps})
-		l := verifexport.NewPacketLimiter(pps, bps, time.Duration(w)*time.Millisecond)
+	runLimiter := func(h history, ups, tick, pps, bps, bytesPer int, rep int, base int64) {
+		w := h.W * tick
+		tw.Emit(tracefmt.Rec{"ev": "reset", "kind": "limiter", "w": w, "ups": ups, "pps": pps, "bps": bps})
+		l := verifexport.NewPacketLimiter(pps, bps, time.Duration(int64(w)*unitNs(ups)))
 		st.LimiterRuns++
 		for _, e := range h.Ev {
 			for k := 0; k < rep; k++ {
-				tms := e.T * ms
-				clock = base + int64(tms)*1_000_000
+				tu := e.T * tick
+				clock = base + int64(tu)*unitNs(ups)
 				ok := l.Account(e.N * bytesPer)
-				tw.Emit(tracefmt.Rec{"ev": "acct", "t": tms, "bytes": e.N * bytesPer, "ok": ok})
+				tw.Emit(tracefmt.Rec{"ev": "acct", "t": tu, "bytes": e.N * bytesPer, "ok": ok})
 				st.Accts++
 				if !ok { // the connection is closed here
 					st.Closed++
 					if len(st.Samples) < 2 {
-						st.Samples = append(st.Samples, map[string]any{"window_ms": w, "pps": pps, "bps": bps, "history": h.Ev, "closed_at_ms": tms})
+						st.Samples = append(st.Samples, map[string]any{"window": w, "units_per_second": ups, "pps": pps, "bps": bps, "history": h.Ev, "closed_at": tu})
 					}
 					return
 				}
@@ -145,26 +154,42 @@ func TestTrace(t *testing.T) {
 		}
 	}
 
-	// 1. TLC histories
+	// 1. TLC histories: at 100 ms per step, and at 300 us per step (several events inside one
+	// millisecond, the window edge between them)
 	limCfg := [][3]int{{10, 0, 50}, {0, 500, 50}, {10, 500, 50}, {7, 333, 40}, {20, 700, 50}}
+	limCfgUs := [][3]int{{3400, 0, 50}, {0, 170000, 50}, {3400, 170000, 50}, {2300, 110000, 40}, {6700, 230000, 50}}
 	for i, h := range hists {
 		base := bases[i%len(bases)]
-		runCounter(h, 100, 1, base)
+		if i%2 == 1 {
+			base += int64(rng.Intn(1_000_000)) // anywhere inside a millisecond
+			runCounter(h, 1_000_000, 300, 1, base)
+			lc := limCfgUs[i%len(limCfgUs)]
+			runLimiter(h, 1_000_000, 300, lc[0], lc[1], lc[2], 1, base)
+			continue
+		}
+		runCounter(h, 1000, 100, 1, base)
 		if i%3 == 0 {
-			runCounter(h, 7, 4, bases[(i+1)%len(bases)]) // every event four times: forces resizes
+			runCounter(h, 1000, 7, 4, bases[(i+1)%len(bases)]) // every event four times: forces resizes
 		}
 		lc := limCfg[i%len(limCfg)]
-		runLimiter(h, 100, lc[0], lc[1], lc[2], 1, base)
+		runLimiter(h, 1000, 100, lc[0], lc[1], lc[2], 1, base)
 		if i%4 == 0 {
 			lc = limCfg[(i/4)%len(limCfg)]
-			runLimiter(h, 100, lc[0]*3, lc[1]*3, lc[2], 3, base)
+			runLimiter(h, 1000, 100, lc[0]*3, lc[1]*3, lc[2], 3, base)
 		}
 	}
 
-	// 2. seeded random long histories: bursts, gaps longer than the window, resize runs
+	// 2. seeded random long histories: bursts, gaps longer than the window, resize runs;
+	// every other one at microsecond resolution with windows of a few milliseconds
 	n := tracefmt.EnvInt("VERIF_RANDOM", 60)
 	for i := 0; i < n; i++ {
+		us := i%2 == 1
 		w := 50 + rng.Intn(1950)
+		maxN := 1400
+		if us {
+			w = 700 + rng.Intn(5000)
+			maxN = 10
+		}
 		h := history{W: w}
 		tcur := rng.Intn(1000)
 		for k := 40 + rng.Intn(120); k > 0; k-- {
@@ -178,20 +203,26 @@ func TestTrace(t *testing.T) {
 			default:
 				tcur += rng.Intn(w/8 + 2)
 			}
-			h.Ev = append(h.Ev, event{T: tcur, N: 1 + rng.Intn(1400)})
+			h.Ev = append(h.Ev, event{T: tcur, N: 1 + rng.Intn(maxN)})
 		}
-		base := bases[rng.Intn(len(bases))]
-		runCounter(h, 1, 1, base)
-		// limits placed near what the history reaches
+		base := bases[rng.Intn(len(bases))] + int64(rng.Intn(1_000_000))
+		ups := 1000
 		pps := 1 + rng.Intn(3000)
+		bps := 1000 + rng.Intn(99000)
+		if us {
+			ups = 1_000_000
+			pps = 1000 + rng.Intn(300000)
+			bps = 1000 + rng.Intn(300000)
+		}
+		runCounter(h, ups, 1, 1, base)
+		// limits placed near what the history reaches
 		if rng.Intn(3) == 0 {
 			pps = 0
 		}
-		bps := 1000 + rng.Intn(99000)
 		if pps != 0 && rng.Intn(3) == 0 {
 			bps = 0
 		}
-		runLimiter(h, 1, pps, bps, 1, 1, base)
+		runLimiter(h, ups, 1, pps, bps, 1, 1, base)
 	}
 
 	// 3. quota in real time
@@ -205,7 +236,7 @@ func TestTrace(t *testing.T) {
 		eps   float32
 		burst int
 	}{{20, 3}, {0.5, 2}, {100, 10}} {
-		tw.Emit(tracefmt.Rec{"ev": "reset", "kind": "quota", "eps_milli": int(qc.eps * 1000), "burst": qc.burst})
+		tw.Emit(tracefmt.Rec{"ev": "reset", "kind": "quota", "eps_milli": int(qc.eps * 1000), "burst": qc.burst, "conc": false})
 		q := verifexport.NewQuota(qc.eps, qc.burst, 1000)
 		start := time.Now()
 		for time.Since(start) < dur {
@@ -225,6 +256,65 @@ func TestTrace(t *testing.T) {
 				time.Sleep(time.Duration(rng.Intn(3000)) * time.Microsecond)
 			}
 		}
+	}
+
+	// 3b. first events of one fresh address block arriving together: the TLC schedules of
+	// QuotaFirst.tla forced through the "quota.miss" gate point, then free-running bursts
+	var scheds [][]string
+	sb, err := os.ReadFile(filepath.Join(tracefmt.OutDir(), "qsched.json"))
+	if err != nil {
+		t.Fatal(err)
+	}
+	if err := json.Unmarshal(sb, &scheds); err != nil {
+		t.Fatal(err)
+	}
+	blockIPs := func(round int, k int) string { // k-th address of a fresh /24 or /64
+		if round%2 == 0 {
+			return fmt.Sprintf("198.%d.%d.%d", 18+(round/256)%2, round%256, 1+k)
+		}
+		return fmt.Sprintf("2001:db8:%x:%x::%x", round/65536, round%65536, 1+k)
+	}
+	qstart := time.Now()
+	var emu sync.Mutex
+	call := func(q *verifexport.Quota, ip string) {
+		t0 := time.Since(qstart).Milliseconds()
+		blocked := q.Blocked(ip)
+		t1 := time.Since(qstart).Milliseconds() + 1
+		emu.Lock()
+		tw.Emit(tracefmt.Rec{"ev": "q", "ip": codes(ip), "blocked": blocked, "t0": t0, "t1": t1, "s": ip})
+		st.QuotaCalls++
+		if blocked {
+			st.QuotaBlocked++
+		}
+		emu.Unlock()
+	}
+	step := time.Duration(tracefmt.EnvInt("VERIF_STEP_MS", 4)) * time.Millisecond
+	for i, sc := range scheds {
+		tw.Emit(tracefmt.Rec{"ev": "reset", "kind": "quota", "eps_milli": 1, "burst": 1, "conc": true})
+		q := verifexport.NewQuota(0.001, 1, 1000)
+		c := sched.New(nil, "quota.miss")
+		c.Install()
+		for k, name := range []string{"a", "b", "c"} {
+			ip := blockIPs(i, k)
+			c.Go(name, func() { call(q, ip) })
+		}
+		c.Run(sc, step, 5*time.Second)
+		c.Uninstall()
+		st.QuotaScheds++
+	}
+	rounds := tracefmt.EnvInt("VERIF_QUOTA_ROUNDS", 40)
+	tw.Emit(tracefmt.Rec{"ev": "reset", "kind": "quota", "eps_milli": 1, "burst": 1, "conc": true})
+	q := verifexport.NewQuota(0.001, 1, 100000)
+	for r := 0; r < rounds; r++ {
+		var wg sync.WaitGroup
+		gate := make(chan struct{})
+		for k := 0; k < 8; k++ {
+			ip := blockIPs(1000+r, k)
+			wg.Add(1)
+			go func() { defer wg.Done(); <-gate; call(q, ip) }()
+		}
+		close(gate)
+		wg.Wait()
 	}
 
 	// 4. bucket keys of TLC-exported address pairs
